@@ -77,6 +77,8 @@ def run(thunk):
     try:
         return Outcome('ok', thunk())
     except Exception as e:
+        if type(e).__name__ == 'NotDeterministic':       # engine artefact: never part of an outcome
+            raise
         return Outcome('err', exc=e)
 
 
